@@ -48,6 +48,25 @@ Theorem C18_median_between_posted_prices :
 Proof. exact median_between. Qed.
 Print Assumptions C18_median_between_posted_prices.
 
+(* the defining property of a median, by rank: at least half of the prices are <= it and
+   at least half are >= it *)
+Theorem C18_median_rank_odd :
+  forall l, Nat.odd (length l) = true ->
+  In (median l) l /\
+  (length l < 2 * count_le (median l) l)%nat /\ (length l < 2 * count_ge (median l) l)%nat.
+Proof. exact median_rank_odd. Qed.
+Print Assumptions C18_median_rank_odd.
+
+(* even count: the mean of the two values lo <= hi that split the prices in halves
+   (no price lies strictly between them) *)
+Theorem C18_median_rank_even :
+  forall l, Nat.even (length l) = true -> l <> [] ->
+  exists lo hi, In lo l /\ In hi l /\ lo <= hi /\ median l = mean_price lo hi /\
+    (length l <= 2 * count_le lo l)%nat /\ (length l <= 2 * count_ge hi l)%nat /\
+    (forall y, In y l -> y <= lo \/ hi <= y).
+Proof. exact median_rank_even. Qed.
+Print Assumptions C18_median_rank_even.
+
 (** ** After each block *)
 
 (* the prices that enter: exactly the stored entries of the market whose expiry is
